@@ -179,6 +179,14 @@ bool run_op2(World& w, const std::vector<std::string>& t, std::ostream& out, std
       }
     }
     o << "]";
+    // equal routes compare equal and have equal hashes: rebuild every route element by element
+    bool eq = true;
+    for (auto const& route : routes) {
+      Route copy;
+      for (auto const& el : route) copy.add(el);
+      if (!(copy == route) || copy.hash() != route.hash() || (copy < route) || (route < copy)) eq = false;
+    }
+    o << " eq=" << (eq ? 1 : 0);
     r = o.str();
     return true;
   }
